@@ -9,7 +9,7 @@ R4  tableau / watch-list writers; pivot removes the leaving row from every watch
 """
 from ..expr import LocalEnv, canon, show
 from ..facts import AnalysisBroken, kids, short, src, walk
-from ..tables import enum_paths, switch_arms
+from ..tables import enum_paths, switch_arms, path_literals, value_of
 from .. import dual, effects
 
 LRA = 'smt::lra_theory::'
@@ -43,12 +43,7 @@ def dualise(t):
 
 
 class DualSumm(dual.Summ):
-    def cond(self, c):
-        r = super().cond(c)
-        if r[0] == 'switch':
-            labs = tuple(sorted(((l[0], SW.get(l[1], l[1]) if isinstance(l[1], str) else l[1]) for l in r[2]), key=repr))
-            return ('switch', r[1], labs)
-        return r
+    pass            # the case labels are rewritten like every other name (Summ.cond)
 
 
 PAIRS = [(LRA + 'assert_lower', LRA + 'assert_upper'), ('smt::assertion::propagate_lb', 'smt::assertion::propagate_ub'),
@@ -257,36 +252,65 @@ def r2(ctx, fs):
 
 def r3(ctx, fs):
     rid = 'C09.R3'
-    ctx.rule(rid, 'lra_theory::propagate(p): asserted leq -> assert_upper(x,v,p), geq -> assert_lower(x,v,p); negated leq -> assert_lower(x,v+eps,p), geq -> assert_upper(x,v-eps,p); failure returns false', floor=2)
+    ctx.rule(rid, 'lra_theory::propagate(p): asserted leq -> assert_upper(x,v,p), geq -> assert_lower(x,v,p); negated leq -> assert_lower(x,v+eps,p), geq -> assert_upper(x,v-eps,p); failure returns false', floor=4)
     f = fs.fn(LRA + 'propagate', params=['lit'])
     env = LocalEnv(f)
     env.param_roles(['p'])
     env.local_role('a', lambda n, i: isinstance(i, tuple) and i[0] == '[]' and i[1] == LRA + 'v_asrts')
-    sw = [n for n in f.nodes() if n.get('k') == 'SwitchStmt']
-    if len(sw) != 1 or canon(sw[0]['slots']['cond'], env, subst=False) != ('mcall', 'smt::sat_core::value', 'smt::theory::sat', ('.', 'a', 'b')):
-        raise AnalysisBroken('%s: switch on the value of the assertion literal not found' % f.id)
+    # decided on the paths of the function: whatever spells the two dispatches (switch / if chain on the value of the assertion literal, ?: / if-else on the
+    # operator), a path is in one cell (value, operator) and makes exactly the bound assertion of that cell, returning false when it fails
     EPS = ('new', 'smt::inf_rational', 'smt::rational::ZERO', 'smt::rational::ONE')
     X, Vv = ('.', 'a', 'x'), ('.', 'a', 'v')
-    want = {
-        'True': ('?:', ('==', ('.', 'a', 'o'), 'leq'), ('mcall', LRA + 'assert_upper', 'this', X, Vv, 'p'), ('mcall', LRA + 'assert_lower', 'this', X, Vv, 'p')),
-        'False': ('?:', ('==', ('.', 'a', 'o'), 'leq'), ('mcall', LRA + 'assert_lower', 'this', X, ('+', EPS, Vv), 'p'), ('mcall', LRA + 'assert_upper', 'this', X, ('-', Vv, EPS), 'p')),
-    }
+    VAL, OP = ('mcall', 'smt::sat_core::value', 'smt::theory::sat', ('.', 'a', 'b')), ('.', 'a', 'o')
     from ..schema import resort
-    for labels, st in switch_arms(sw[0]):
-        for l in labels:
-            if l[0] != 'case' or l[2] not in want:
-                continue
-            val = l[2]
-            if st.get('k') != 'IfStmt':
-                raise AnalysisBroken('%s case %s: expected if (!assert...) return false' % (f.id, val))
-            c = canon(st['slots']['cond'], env, subst=False)
-            inner = c[1] if isinstance(c, tuple) and c[0] == '!' else None
-            rets = [canon(m['c'][0], env) for m in walk(st['slots']['then']) if m.get('k') == 'ReturnStmt']
-            norm = _norm_sel(inner)
-            ctx.instance(rid, [f.id, val], {'literal': val, 'dispatch': show(norm)})
-            if norm != _norm_sel(resort(want[val])) or rets != ['false']:
-                ctx.finding(rid, f.id, val, 'lra_theory::propagate, literal %s: dispatch is %s; the %s of "x <= v" / "x >= v" requires %s, failing the propagation when the bound assertion fails' % (
-                    val, show(norm), 'assertion' if val == 'True' else 'negation', show(_norm_sel(resort(want[val])))), node=st, expect=show(want[val]))
+    want = {
+        ('True', 'leq'): ('mcall', LRA + 'assert_upper', 'this', X, Vv, 'p'), ('True', 'geq'): ('mcall', LRA + 'assert_lower', 'this', X, Vv, 'p'),
+        ('False', 'leq'): resort(('mcall', LRA + 'assert_lower', 'this', X, ('+', EPS, Vv), 'p')), ('False', 'geq'): resort(('mcall', LRA + 'assert_upper', 'this', X, ('-', Vv, EPS), 'p')),
+    }
+    cn = lambda n: canon(n, env, subst=False)
+    is_assert = lambda t: isinstance(t, tuple) and t and t[0] == 'mcall' and t[1] in (LRA + 'assert_upper', LRA + 'assert_lower')
+    cells = {}
+    tested = False
+    for p in enum_paths(f.body):
+        L = path_literals(p.conds, cn)
+        if L is None:
+            continue
+        v, o = value_of(L, VAL), value_of(L, OP)
+        calls = [(resort(c[1]), c[2]) for c in L if c[0] == 'if' and is_assert(c[1])]
+        calls += [(resort(cn(x)), None) for st in p.stmts for x in walk(st) if x.get('k') == 'CXXMemberCallExpr' and is_assert(cn(x)) and not st.get('as')]
+        if v is not None:
+            tested = True
+        if v not in ('True', 'False'):
+            if calls:
+                ctx.finding(rid, f.id, 'unassigned', 'lra_theory::propagate asserts a bound on a path where the assertion literal is neither true nor false', node=p.endnode or f.body)
+            continue
+        cells.setdefault((v, o), []).append((calls, p))
+    if not tested:
+        raise AnalysisBroken('%s: no test of the value of the assertion literal found' % f.id)
+    for key, w in sorted(want.items()):
+        val = key[0]
+        got = cells.get(key) or []
+        ok = bool(got)
+        seen = set()
+        for calls, p in got:
+            retf = p.end == 'return' and p.endnode.get('c') and cn(p.endnode['c'][0]) == 'false'
+            if len(calls) != 1 or calls[0][0] != w or calls[0][1] is None:
+                ok = False
+            elif calls[0][1] is False and not retf:
+                ok = False
+            elif calls[0][1] is True and retf:
+                ok = False
+            else:
+                seen.add(calls[0][1])
+        ok = ok and seen == {True, False}
+        found = sorted({show(c[0]) for calls, p in got for c in calls})
+        ctx.instance(rid, [f.id, '%s/%s' % key], {'literal': val, 'operator': key[1], 'dispatch': found})
+        if not ok:
+            ctx.finding(rid, f.id, '%s/%s' % key, 'lra_theory::propagate, literal %s, operator %s: makes %s; the %s of "x <= v" / "x >= v" requires %s, failing the propagation when the bound assertion fails' % (
+                val, key[1], found or 'no bound assertion', 'assertion' if val == 'True' else 'negation', show(w)), node=(got[0][1].endnode if got and got[0][1].endnode else f.body), expect=show(w))
+    for key in cells:
+        if key not in want:
+            ctx.finding(rid, f.id, 'cell %s/%s' % key, 'lra_theory::propagate: a path on which the operator of the assertion is not decided (%s) makes a bound assertion' % (key,), loc=f.loc)
 
 
 def _norm_sel(t):
